@@ -89,7 +89,7 @@ mutual
       let a ← toAct x
       let t ← toActs xs
       pure (a :: t)
-  partial def toFnOpt : Sexp → Option (Option Fn)
+  partial def toFnOpt : Sexp → Option (Option UFn)
     | .atom "N" => some none
     | .list [.atom "fn", .atom id, .list acts, out] => do
       let id ← natOfAtom id
